@@ -2,7 +2,7 @@
 import re
 from mir import fmt, walk, strip_refs, norm, callee_names
 from binser import rpo_index, root_of, affine, fmt_affine
-from flow import guards, control_deps, cond_truth, enum_paths, PathLimit
+from flow import guards, dom_guards, control_deps, cond_truth, enum_paths, PathLimit
 
 EXPLANATION = ("Four tables are extracted from the MIR with control-dependence guards: (a) reader: field stored, flag "
                "bit tested, read kind, presence companion; (b) flag computation: presence predicate and bit set per "
@@ -630,7 +630,7 @@ def form_rules(facts, rep, R2, rd, cf, ap, ftab, rrows=()):
         newlen = cf.term_of_operand(t["args"][1])
         bytes_tested = set()
         odd = []
-        for (a, s, c) in guards(cf, bb, cd):
+        for (a, s, c) in dom_guards(cf, bb, cd):
             ct = cond_truth(c)
             if not ct:
                 continue
@@ -668,7 +668,7 @@ def form_rules(facts, rep, R2, rd, cf, ap, ftab, rrows=()):
                         cb.append(bb)
         after = cf.reachable_blocks(mbb)
         g_ok = None
-        for (a, s, c) in guards(cf, mbb, cd):
+        for (a, s, c) in dom_guards(cf, mbb, cd):
             ct = cond_truth(c)
             if not ct:
                 continue
